@@ -2,24 +2,43 @@
 //! usage: vx-replay <property> [seed]   -> prints one JSON line per failing case:
 //!   {"obligation": "<label>", "input": ..., "observed": ..., "expected": ...}
 //! The witness search never decides pass/fail (only the verifier does); it attaches failing inputs to red obligations.
+#[cfg(feature = "c01")]
 mod c01;
+#[cfg(feature = "c03")]
 mod c03;
+#[cfg(feature = "c04")]
 mod c04;
+#[cfg(feature = "c05")]
 mod c05;
+#[cfg(feature = "c06")]
 mod c06;
+#[cfg(feature = "c07")]
 mod c07;
+#[cfg(feature = "c08")]
 mod c08;
+#[cfg(feature = "c08q")]
 mod c08q;
+#[cfg(feature = "c09")]
 mod c09;
+#[cfg(feature = "c10")]
 mod c10;
+#[cfg(feature = "c11")]
 mod c11;
+#[cfg(feature = "c12")]
 mod c12;
+#[cfg(feature = "c13")]
 mod c13;
+#[cfg(feature = "c14")]
 mod c14;
+#[cfg(feature = "c15")]
 mod c15;
+#[cfg(feature = "c19")]
 mod c19;
+#[cfg(feature = "c20")]
 mod c20;
+#[cfg(feature = "eng")]
 mod eng;
+mod rng;
 
 pub fn report(obligation: &str, input: String, observed: String, expected: String) {
     println!(
@@ -33,22 +52,39 @@ fn main() {
     let pid = args.get(1).map(|s| s.as_str()).unwrap_or("");
     let seed: u64 = args.get(2).and_then(|s| s.parse().ok()).unwrap_or(0);
     let n = match pid {
+        #[cfg(feature = "c01")]
         "C01" => c01::run(seed),
+        #[cfg(feature = "c03")]
         "C03" => c03::run(seed, std::env::args().nth(3).as_deref() == Some("thorough")),
+        #[cfg(feature = "c04")]
         "C04" => c04::run(seed, std::env::args().nth(3).as_deref() == Some("thorough")),
+        #[cfg(feature = "c05")]
         "C05" => c05::run(seed, std::env::args().nth(3).as_deref() == Some("thorough")),
+        #[cfg(feature = "c06")]
         "C06" => c06::run(seed, std::env::args().nth(3).as_deref() == Some("thorough")),
+        #[cfg(feature = "c07")]
         "C07" => c07::run(seed, std::env::args().nth(3).as_deref() == Some("thorough")),
+        #[cfg(feature = "c08")]
         "C08" => c08::run(seed),
+        #[cfg(feature = "c08q")]
         "C08Q" => c08q::run(seed, std::env::args().nth(3).as_deref() == Some("thorough")),
+        #[cfg(feature = "c09")]
         "C09" => c09::run(seed, std::env::args().nth(3).as_deref() == Some("thorough")),
+        #[cfg(feature = "c10")]
         "C10" => c10::run(seed, std::env::args().nth(3).as_deref() == Some("thorough")),
+        #[cfg(feature = "c11")]
         "C11" => c11::run(seed, std::env::args().nth(3).as_deref() == Some("thorough")),
+        #[cfg(feature = "c12")]
         "C12" => c12::run(seed, std::env::args().nth(3).as_deref() == Some("thorough")),
+        #[cfg(feature = "c13")]
         "C13" => c13::run(seed, std::env::args().nth(3).as_deref() == Some("thorough")),
+        #[cfg(feature = "c14")]
         "C14" => c14::run(seed, std::env::args().nth(3).as_deref() == Some("thorough")),
+        #[cfg(feature = "c15")]
         "C15" => c15::run(seed),
+        #[cfg(feature = "c19")]
         "C19" => c19::run(seed, std::env::args().nth(3).as_deref() == Some("thorough")),
+        #[cfg(feature = "c20")]
         "C20" => c20::run(seed, std::env::args().nth(3).as_deref() == Some("thorough")),
         _ => {
             eprintln!("no witness search for {pid}");
